@@ -388,6 +388,19 @@ pub fn run(ctx: &Ctx) -> Report {
     total.extra.insert("dictionary_tokens".into(), json!(dict.len()));
     total.exhaustive_parts.push("every carrier x every token of a dictionary extracted from the code generator's sources (format placeholders such as {mdt}, emitted literals)".into());
 
+    // look-alikes of the characters that need escaping, per carrier
+    let mut stl = Stats::new();
+    for carrier in CARRIERS {
+        for c in "\"\\~".chars() {
+            for l in lookalikes(c) {
+                for s in [l.to_string(), format!("/mnt/{l}irts/mdt0"), format!("a{l}{l}b")] {
+                    let v = judge(carrier, &s);
+                    stl.record(&v, stable_hash(&(carrier, &s)), true, || case_json(carrier, &s));
+                }
+            }
+        }
+    }
+    total.merge(stl);
     // long strings: lengths around powers of two, a multi-byte character straddling the boundary,
     // hostile characters at the very end (truncation, fixed-size buffers, byte/char offsets)
     let long = run_shards(CARRIERS.len(), |ci| {
@@ -419,6 +432,8 @@ pub fn run(ctx: &Ctx) -> Report {
                 3 => proptest::collection::vec(prop::sample::select(ALPHABET.to_vec()), 1..40).prop_map(|v| v.into_iter().collect::<String>()),
                 1 => "[ -~]{1,30}",
                 1 => "\\PC{1,12}",
+                // characters whose low byte is that of '"', '\\', '~', '%', '(' ...
+                1 => proptest::collection::vec(prop::sample::select("\"\\~%();#'".chars().flat_map(|c| lookalikes(c)).chain("ab \"\\".chars()).collect::<Vec<char>>()), 1..8).prop_map(|v| v.into_iter().collect::<String>()),
                 1 => proptest::collection::vec(prop::sample::select(vec!['\u{301}', '\u{200b}', '\u{feff}', '\u{2028}', '\u{1b}', '\u{85}', '😀', 'e', '"', '\\', '*', ' ']), 1..8).prop_map(|v| v.into_iter().collect::<String>()),
                 1 => "[a-z*?\\[\\]\"\\\\]{1,10}",
                 1 => proptest::collection::vec(prop_oneof![prop::sample::select(dict.clone()), "[a-z\"\\\\ ]{0,3}"], 1..4).prop_map(|v| v.concat()),
